@@ -904,13 +904,14 @@ class NestedContainer(Task, Iterable):
     def __dask_tokenize__(self):
         from dask.tokenize import tokenize
 
-        return (
-            type(self).__name__,
-            self.klass,
-            sorted(tokenize(a) for a in self.args),
-        )
-
-        return super().__dask_tokenize__()
+        tokens = [tokenize(a) for a in self.args]
+        if self.klass is set:
+            # only for a set is the order of the elements not part of the value
+            tokens.sort()
+        elif self.klass is dict:
+            # a dict is identified by its key/value pairs, in any order
+            tokens = sorted(zip(tokens[::2], tokens[1::2]))
+        return (type(self).__name__, self.klass, tokens)
 
     @staticmethod
     def to_container(*args, constructor):
